@@ -21,7 +21,7 @@ import (
 
 func init() { commands["find"] = findCmd }
 
-var findNames = map[int]string{0: "spokfile", 1: "aaa.txt", 2: "zzz.txt", 11: "d1", 12: "d2", 13: "d3", 14: "d4", 20: "other", 21: "x"}
+var findNames = map[int]string{0: "spokfile", 1: "aaa.txt", 2: "zzz.txt", 11: "d1", 12: "d2", 13: "d3", 14: "d4", 20: "other", 21: "x", 22: "d1x"}
 
 type findStats struct {
 	Cases      int            `json:"cases"`
@@ -77,7 +77,7 @@ func findCmd(args []string) error {
 	if *tier == "thorough" {
 		maxDepth = 4
 	}
-	st.Exhaustive = fmt.Sprintf("every chain of depth 0..%d whose levels independently hold one of %d contents (nothing, a file sorting before, a file sorting after, a regular spokfile, spokfile between other files, a directory named spokfile next to a file) x every start level x stop in {every level, an existing unrelated directory, a missing unrelated directory}", maxDepth, len(contents))
+	st.Exhaustive = fmt.Sprintf("every chain of depth 0..%d whose levels independently hold one of %d contents (nothing, a file sorting before, a file sorting after, a regular spokfile, spokfile between other files, a directory named spokfile next to a file) x every start level x stop in {every level, an existing unrelated directory, a missing unrelated directory, a sibling directory whose name extends a chain directory's name, a missing directory below that}", maxDepth, len(contents))
 	treeNo := 0
 	hangs := 0
 	for depth := 0; depth <= maxDepth && hangs < 3; depth++ {
@@ -123,14 +123,15 @@ func findCmd(args []string) error {
 					ents = append(ents, fmt.Sprintf("%d/d", 10+k+1))
 				}
 				if k == 0 {
-					ents = append(ents, "20/d")
+					ents = append(ents, "20/d", "22/d")
 				}
 				dirEnc = append(dirEnc, ints(chain[k])+":"+strings.Join(ents, ","))
 			}
 			os.MkdirAll(filepath.Join(base, "other"), 0o755)
-			dirEnc = append(dirEnc, "20:")
+			os.MkdirAll(filepath.Join(base, "d1x"), 0o755) // a sibling whose path has base/d1 as a string prefix without being below it
+			dirEnc = append(dirEnc, "20:", "22:")
 			stops := append([][]int{}, chain...)
-			stops = append(stops, []int{20}, []int{20, 21})
+			stops = append(stops, []int{20}, []int{20, 21}, []int{22}, []int{22, 21})
 			for sl := 0; sl <= depth && hangs < 3; sl++ {
 				for si, stop := range stops {
 					if hangs >= 3 {
